@@ -40,6 +40,9 @@ def g_jtable(jd):
     return f"(mkj {g_str(jd['name'])} {g_list([g_str(d) for d in jd['destinations']])} {cols})"
 
 
+JSON_KEYS = ["unit", "values", "columns", "name", "destinations", "units", "origin"]
+
+
 class C08(Prop):
     id = "C08"
     coq_header = "From PdV.Corr Require Import C08."
@@ -71,6 +74,16 @@ class C08(Prop):
                     r = rng.randrange(n)
                     for c in spec["cols"]:
                         c["values"][r] = {"f": "nan"} if c["kind"] == "float" else ""
+            if i % 6 == 2 and spec["cols"]:
+                # columns named like the keys of the JSON layout itself
+                k = min(len(spec["cols"]), rng.randint(1, 3))
+                if k >= 2 and rng.random() < 0.5:
+                    kw = ["unit", "values"] + rng.sample(JSON_KEYS[2:], k - 2)
+                    rng.shuffle(kw)
+                else:
+                    kw = rng.sample(JSON_KEYS, k)
+                for c, nme in zip(spec["cols"], kw):
+                    c["name"] = nme
             out.append({"table": spec})
         return out
 
